@@ -40,7 +40,7 @@ TIMEOUT = {"quick": 1200, "thorough": 7200}
 
 
 def plan(tier, seed):
-    return [{"shard": i, "n_shards": 16, "reps": 1 if tier == "quick" else 8, "programs": 2 if tier == "quick" else 40} for i in range(16)]
+    return [{"shard": i, "n_shards": 16, "reps": 1 if tier == "quick" else 30, "programs": 2 if tier == "quick" else 300} for i in range(16)]
 
 
 # ------------------------------------------------------------------ helpers
